@@ -311,9 +311,21 @@ def run(repo, rep):
         tries = [t for t in ast.walk(lt.node) if isinstance(t, ast.Try)]
         ok = len(tries) == 1 and any(isinstance(r, ast.Return) and src(r.value) == 'self.value < other.value' for r in tries[0].body) \
             and all(handler_catches(h, 'TypeError') and not handler_catches(h, 'Exception') for h in tries[0].handlers)
+    if ok:
+        # no answer is given before the natural comparison has been tried
+        tr = tries[0]
+        inside = {id(x) for part in (tr.body, *[h.body for h in tr.handlers]) for st_ in part for x in ast.walk(st_)}
+        early = [r for r in ast.walk(lt.node) if isinstance(r, ast.Return) and id(r) not in inside]
+        ok = not early
     rep.check(ok, 'C01.e', '_AlwaysSortable.__lt__:natural-order-first', srt.where if srt else m.relpath,
               'comparable keys are ordered by their own <', '_AlwaysSortable.__lt__ does not return self.value < other.value first', nontrivial=True)
     rep.floor('C01.e', n, 2)
+
+    # ---------------------------------------------------------------- C01.h string syntax (home: C02)
+    from .common import import_instances
+    nh = import_instances(repo, rep, 'C02', lambda i: i.rule in ('C02.e', 'C02.g', 'C02.a') or i.construct.startswith('pattern:'),
+                          'C01.h', 'a str/bytes leaf would not evaluate back to the same value')
+    rep.floor('C01.h', nh, 40)
 
     # ---------------------------------------------------------------- C01.f atoms
     n = 0
